@@ -473,6 +473,10 @@ func (s *APIServer) CreateRawTransaction(ctx context.Context, in *pb.CreateRawTr
 	// inputs
 	inputs := make([]*masswallet.TxIn, 0)
 	for _, txInput := range in.Inputs {
+		if txInput == nil {
+			// a null element of a repeated field (possible through the JSON gateway)
+			return nil, status.New(ErrAPIInvalidParameter, ErrCode[ErrAPIInvalidParameter]).Err()
+		}
 		txid := strings.TrimSpace(txInput.TxId)
 		err := checkTransactionIdLen(txid)
 		if err != nil {
@@ -600,6 +604,10 @@ func (s *APIServer) CreateBindingTransaction(ctx context.Context, in *pb.CreateB
 
 	totalOutValue := massutil.ZeroAmount()
 	for _, m := range in.Outputs {
+		if m == nil {
+			// a null element of a repeated field (possible through the JSON gateway)
+			return nil, status.New(ErrAPIInvalidParameter, ErrCode[ErrAPIInvalidParameter]).Err()
+		}
 		val, err := checkParseAmount(m.Amount)
 		if err != nil {
 			return nil, err
@@ -845,6 +853,10 @@ func (s *APIServer) GetTransactionFee(ctx context.Context, in *pb.GetTransaction
 	} else {
 		inputs := make([]*masswallet.TxIn, 0)
 		for _, txInput := range in.Inputs {
+			if txInput == nil {
+				// a null element of a repeated field (possible through the JSON gateway)
+				return nil, status.New(ErrAPIInvalidParameter, ErrCode[ErrAPIInvalidParameter]).Err()
+			}
 			err := checkTransactionIdLen(txInput.TxId)
 			if err != nil {
 				return nil, err
